@@ -3,6 +3,8 @@
 package schedule
 
 import (
+	"strconv"
+	"math/big"
 	"encoding/json"
 	"fmt"
 	"math/rand"
@@ -313,6 +315,7 @@ func TestVerifC18(t *testing.T) {
 	}
 	c18RoundTrips(rep, order)
 	c18Invalid(rep)
+	c18Huge(rep)
 }
 
 func abs(a int) int {
@@ -458,5 +461,60 @@ func c18Invalid(rep *verifkit.Report) {
 	}
 	if len(rep.Samples) < 6 {
 		rep.Sample(map[string]any{"invalid_document_example": `{"time_zone":"UTC","mon":{"start":3600000,"end":1800000}}`})
+	}
+}
+
+// c18Huge feeds JSON schedules whose one bad bound is a valid whole-minute
+// value plus or minus a multiple of a large power of two (in milliseconds), as
+// integer, float and exponent literals, and a few other huge literals: ranges
+// longer than 24h or negative must be rejected at every magnitude, also where
+// a conversion between units or number types would wrap around or lose the
+// high bits.
+func c18Huge(rep *verifkit.Report) {
+	rng := rep.Rand("huge")
+	n := verifkit.Pick(3000, 30000)
+	fixed := []string{"9223372036854775807", "-9223372036854775808", "18446744073709551616", "18446744073795951616", "1e15", "1e18", "1e19", "1e30", "-1e18",
+		"9223372036854775808", "4294967296", "4294967296000", "4381367296", "18446744073709552", "9007199254740993", "1.8446744073709552e19"}
+	for i := 0; i < n; i++ {
+		day := c18DayKeys[rng.Intn(7)]
+		v := int64(1+rng.Intn(1440)) * 60000
+		var lit string
+		if i < len(fixed)*4 {
+			lit = fixed[i%len(fixed)]
+		} else {
+			sh := []uint{31, 32, 33, 40, 48, 52, 53, 54, 56, 57, 58, 59, 60, 61, 62, 63, 64, 65}[rng.Intn(18)]
+			k := big.NewInt(int64(1 + rng.Intn(31)))
+			if rng.Intn(2) == 0 {
+				k.Neg(k)
+			}
+			x := new(big.Int).Lsh(big.NewInt(1), sh)
+			x.Mul(x, k)
+			x.Add(x, big.NewInt(v))
+			if x.Sign() >= 0 && x.Cmp(big.NewInt(86400000)) <= 0 {
+				continue
+			}
+			lit = x.String()
+			switch rng.Intn(6) {
+			case 0:
+				lit += ".0"
+			case 1:
+				f, _ := new(big.Float).SetInt(x).Float64()
+				lit = strconv.FormatFloat(f, 'e', -1, 64)
+			}
+		}
+		boundIsEnd := rng.Intn(3) != 0
+		var doc string
+		if boundIsEnd {
+			doc = fmt.Sprintf(`{"time_zone":"UTC","%s":{"start":0,"end":%s}}`, day, lit)
+		} else {
+			doc = fmt.Sprintf(`{"time_zone":"UTC","%s":{"start":%s,"end":86400000}}`, day, lit)
+		}
+		rep.Eval(true, "huge|"+doc)
+		rep.Class("invalid:huge-or-hugely-negative-bound")
+		var w Weekly
+		if err := json.Unmarshal([]byte(doc), &w); err == nil {
+			rep.Violate("invalid-accepted:huge-bound", "a day range with a bound far outside a day was accepted",
+				map[string]any{"document": doc, "stored_as": fmt.Sprintf("%+v", w.days)})
+		}
 	}
 }
